@@ -659,6 +659,11 @@ func (m *Machine) pureExternal(c *Config, call ssa.CallInstruction, full string,
 			m.syms.declareFun("X._reflect.Value_.CanInterface.r0", []Sort{SRV}, SBool)
 			m.safety(c, "safe-reflect", app(SBool, "X._reflect.Value_.CanInterface.r0", rt), call.Pos())
 		}
+		// ... and the result of MapIndex is the zero Value for a key that is not in the map - which is the case
+		// for a key that is not equal to itself (NaN), even when it came from MapKeys
+		if rt, ok := args[0].(Term); ok && strings.HasPrefix(rt.S, "(X._reflect.Value_.MapIndex.r0 ") && strings.Contains(funcKey(c.top.fn), "(*Encoder)") {
+			m.safety(c, "safe-reflect", app(SBool, "X._reflect.Value_.IsValid.r0", rt), call.Pos())
+		}
 	}
 	var ats []Term
 	functional := !allocExternals[full]
